@@ -235,7 +235,9 @@ pub fn exec_model_to_real(case: &WireCase, tally: &mut Tally) -> Result<(), Fail
         WMsg::SynAck { ops, .. } | WMsg::Ack { ops } => ops.iter().all(|op| op_len(op) <= 65_535),
         _ => true,
     };
-    if ops_small {
+    // (Only for canonically blocked input: a message decoded from differently blocked bytes
+    // remembers the length it was decoded from and is never re-serialized by a node.)
+    if ops_small && canonical {
         // The real encoder's output for the decoded message must be decoded identically by the
         // independent decoder and have the announced length. (Byte-for-byte equality with the
         // independent canonical encoder is recorded, not required: block size and compression
